@@ -159,7 +159,15 @@ func finish(spec *Spec, tier string, seed int, obs []*Obligation, results map[st
 		return 2
 	}
 	if exit == 0 {
-		fmt.Printf("OK property=%s tier=%s (held on everything explored; %d native replays matched)\n", spec.Property, tier, validated)
+		und := 0
+		for _, o := range obs {
+			und += len(results[o.Name].rep.Unknowns) + len(results[o.Name].rep.Unsupported)
+		}
+		if und > 0 {
+			fmt.Printf("OK property=%s tier=%s (held on everything decided; %d items undecided and not counted as held, listed in the evidence; %d native replays matched)\n", spec.Property, tier, und, validated)
+		} else {
+			fmt.Printf("OK property=%s tier=%s (held on everything explored; %d native replays matched)\n", spec.Property, tier, validated)
+		}
 	}
 	return exit
 }
